@@ -16,6 +16,7 @@ code -> spec
   abstract state of Handshake.tla from line to line."""
 import json
 import os
+import sys
 
 from vlib.core import MachineryError
 
@@ -151,9 +152,9 @@ def run(ctx):
     ctx.notes["rule"] = (
         "guard products: every scenario of the Handshake_gen families %s within the cfg bounds (each parameter 2-6 classes, all "
         "combinations per family, room versions %s); end-to-end: every behaviour of Handshake!Spec with at most 2 Forge actions%s; "
-        "trace: those runs plus seeded random runs (all room versions, <= 4 forgeries). distinct = distinct (handler, verdict, "
+        "trace: those runs (quick: every third) plus seeded random runs (all room versions, <= 4 forgeries). distinct = distinct (handler, verdict, "
         "failing conjunct set, error class) classes resp. distinct (flow, forgeries, outcome sequence) behaviours"
-        % (FAMILIES, "1,10 (restricted: 10,12)" if quick else "1,2,3,6,7,8,9,10,11,12",
+        % (FAMILIES, "1,10 (restricted: 10,12; send_join trust and invite products: 10)" if quick else "1,2,3,6,7,8,9,10,11,12",
            " in room version 10" if quick else " in room versions 1,6,10,11,12 and with at most 3 in room version 10"))
     total = 0
     for fam in FAMILIES:
@@ -167,11 +168,11 @@ def run(ctx):
         total += len(r.records)
         # ... recorded and validated (code -> spec)
         t1 = os.path.join(ctx.scratch, "c15_%s_trace.ndjson" % cfg)
-        ctx.harness("c15e2e", r.records, args=["-out", t1], pkg="c15")
+        ctx.harness("c15e2e", r.records[::3] if quick else r.records, args=["-out", t1], pkg="c15")
         _validate(ctx, t1, "tlc%d" % n)
     ctx.notes["scenarios_replayed"] = total
     # seeded random runs beyond the TLC bounds
-    n = 1500 if quick else 25000
+    n = 1000 if quick else 25000
     t2 = os.path.join(ctx.scratch, "c15_rec_trace.ndjson")
     res = ctx.harness("c15rec", args=["-out", t2, "-n", n], pkg="c15")
     for p in res:
@@ -183,3 +184,37 @@ def run(ctx):
                          {"harness": "c15rec", "pkg": "c15", "plan": p.get("extra"), "count": 1})
             break
     _validate(ctx, t2, "rec")
+
+
+def replay(ctx, rp):
+    """bin/check C15 --replay <file>: re-execute one stored disagreement against the current tree."""
+    pl = rp["payload"]
+    if "record" in pl:
+        res = [r for r in ctx.harness(pl["harness"], [pl["record"]], args=pl.get("args"), pkg="c15") if "i" in r]
+        print("record :", json.dumps(pl["record"]))
+        print("stored :", json.dumps(pl["result"])[:2000])
+        print("now    :", json.dumps(res[0] if res else None)[:2000])
+        bad = bool(res) and not res[0].get("ok")
+    else:
+        plan = pl["plan"]
+        pin = os.path.join(ctx.scratch, "c15_replay_plan.ndjson")
+        with open(pin, "w") as f:
+            f.write(json.dumps({"flow": plan["flow"], "sc": plan["sc"], "forges": plan.get("forges", [])}) + "\n")
+        out = os.path.join(ctx.scratch, "c15_replay_trace.ndjson")
+        res = ctx.harness("c15rec", args=["-in", pin, "-out", out], pkg="c15")
+        panicked = [r for r in res if not r.get("ok", True)]
+        print("plan   :", json.dumps(plan))
+        if panicked:
+            print("now    : panic", panicked[0].get("what", "")[:1500])
+            bad = True
+        else:
+            ok, rejected, tout = ctx.tlc_trace("Handshake_trace", "Handshake_trace.cfg", out)
+            with open(out) as f:
+                for n, line in enumerate(f, 1):
+                    print("  %s %3d %s" % ("!!" if n in rejected else "  ", n, line.strip()[:300]))
+            print("info   :", json.dumps(_trace_info(tout)))
+            bad = not ok
+    if bad:
+        print("VIOLATION property=%s replay=%s" % (ctx.pid, os.path.abspath(sys.argv[-1])))
+        return 1
+    return 0
